@@ -265,12 +265,18 @@ def tlaps(module, expect_min=10, timeout=900):
             shutil.copy(os.path.join(SPEC, f), wd)
     t0 = time.time()
     try:
-        try:
-            p = subprocess.run(["tlapm", "--threads", "8", module + ".tla"], cwd=wd, capture_output=True, text=True, timeout=timeout)
-        except subprocess.TimeoutExpired:
-            raise Machinery("tlapm %s timed out" % module)
-        out = p.stdout + p.stderr
-        m = re.search(r"All (\d+) obligations? proved", out)
+        m, out = None, ""
+        for stretch in ("3", "12"):       # back-end time limits are wall clock: a loaded machine gets a second, slower try
+            shutil.rmtree(os.path.join(wd, ".tlacache"), ignore_errors=True)
+            try:
+                p = subprocess.run(["tlapm", "--threads", "8", "--stretch", stretch, module + ".tla"], cwd=wd, capture_output=True,
+                                   text=True, timeout=timeout)
+            except subprocess.TimeoutExpired:
+                raise Machinery("tlapm %s timed out" % module)
+            out = p.stdout + p.stderr
+            m = re.search(r"All (\d+) obligations? proved", out)
+            if m and int(m.group(1)) >= expect_min:
+                break
         if not m or int(m.group(1)) < expect_min:
             raise Machinery("tlapm %s: not all obligations proved:\n%s" % (module, out[-2500:]))
         n = int(m.group(1))
